@@ -138,6 +138,48 @@ class Poison:
         return bad
 
 
+class Sequence:
+    """multi-step connection histories a remote can produce on one peer (no API call in between): a resolved collision whose
+    survivor is then dropped, followed by a new attempt; sessions ending in each way followed by the next; the server must
+    neither crash nor refuse to establish the last, well-behaved session"""
+    no_model = True
+
+    def __init__(self, sid, tag, steps, lid, rid):
+        self.sid, self.tag, self.steps, self.lid, self.remote_id = sid, tag, steps, lid, rid
+
+    def scenario(self):
+        return {"id": self.sid, "local_as": 65001, "remote_as": 65000, "local_id": self.lid, "hold": 90, "passive": False,
+                "idle_hold_ms": 80, "connect_retry_ms": 400, "caps": [], "on_open": None, "handler": [], "est_writes": [],
+                "steps": self.steps}
+
+    def model_case(self):
+        return None
+
+    def check(self, r):
+        est = [cb for cb in r["cbs"] if cb["name"] == "OnEstablished" and cb["ph"] == "enter"]
+        return [] if est else ["after the connection history the last, well-behaved session did not establish"]
+
+
+def sequence_items(rng, tier):
+    out = []
+    sid = 600
+    ka = S.frame(S.KEEPALIVE).hex()
+    for lid, rid in ((0x0A000003, 0x0A000002), (0x0A000001, 0x0A000002)):       # local dominant / remote dominant
+        op = S.frame(S.OPEN, S.open_body(bid=rid)).hex()
+        for how in ("fin", "rst"):
+            # both connections exchange OPENs (collision resolved), the survivor is dropped before KEEPALIVE, the next
+            # outbound attempt is answered normally
+            survivor, loser = ("cO", "cI") if lid > rid else ("cI", "cO")
+            st = [["accept", "cO", 2500], ["recv", "cO", 1, 1500], ["dial", "cI"], ["recv", "cI", 1, 1500],
+                  ["send", "cO", op, 0], ["send", "cI", op, 0], ["sleep", 80]]
+            st += [["close", survivor], ["recv_eof", survivor, 500], ["fullclose", survivor]] if how == "fin" else [["reset", survivor]]
+            st += [["sleep", 30], ["drain"], ["accept", "c3", 2500], ["recv", "c3", 1, 1500], ["send", "c3", op, 0], ["send", "c3", ka, 0],
+                   ["recv", "c3", 2, 1500], ["sleep", 40]]
+            out.append(Sequence(sid, "collision-survivor-dropped-%s-then-redial.%s" % (how, "dominant" if lid > rid else "nondominant"), st, lid, rid))
+            sid += 1
+    return out
+
+
 def poison_items(rng, tier):
     out = []
     sid = 0
@@ -176,7 +218,7 @@ def poison_items(rng, tier):
 
 
 def sys_part(tier, rng, rep, replay):
-    cov = sysrun.run_convs(PID, poison_items(rng, tier), rep, extra_check=lambda c, e, o, r: c.check(r), par=24)
+    cov = sysrun.run_convs(PID, poison_items(rng, tier) + sequence_items(rng, tier), rep, extra_check=lambda c, e, o, r: c.check(r), par=24)
     cov["rule"] = ("poison then probe: hostile streams (random, mutated OPEN/UPDATE, length 65535, truncation, 300 back-to-back "
                    "KEEPALIVEs, partial message then silence, a decode error right behind a state-leaving message while the FSM "
                    "is inside a plugin callback) at OpenSent/OpenConfirm/Established on both directions; then DeletePeer must "
